@@ -439,6 +439,12 @@ def run(ctx):
                      'read-only view)', 2)
     _table_passthrough(ctx, repo)
 
+    # ---- R13n: the input is read at the current position only, or in range
+    ctx.rule('R13n', 'the encoder reads its input string only at the current position (kept below len(s) by the main loop) '
+                     'or at an index for which an in-range fact holds at that place: a look-ahead s[pos+k] at the end of '
+                     'the input raises IndexError, which is neither output nor the ValueError of the fail policy', 4)
+    _input_indexing(ctx, repo)
+
     # ---- R13m: an empty replacement is a replacement
     ctx.rule('R13m', 'the result of looking a character up in an encoder table that holds an empty replacement (U+2061) is '
                      'compared with None, never tested by truthiness', 1)
@@ -637,3 +643,62 @@ def _table_passthrough(ctx, repo):
                    construct='get_builtin_conversion_rules: ' + ' & '.join(cs.cond_src())[:60])
     if n < 2:
         ctx.unknown('R13k', gm, fn, 'fewer than two dictionary rule sets found (%d)' % n, construct='built-in rule sets')
+
+
+def _input_indexing(ctx, repo):
+    from ..grules import short_circuit_facts
+    from .. import symex as _sx
+    em = repo.mod('pylatexenc.latexencode._unicode_to_latex_encoder')
+    n = 0
+    for q, f in sorted(em.functions.items()):
+        if not q.startswith('UnicodeToLatexEncoder.'):
+            continue
+        params = [a.arg for a in f.args.args]
+        if 's' not in params:
+            continue
+        for x in ast.walk(f):
+            if not (isinstance(x, ast.Subscript) and isinstance(x.value, ast.Name) and x.value.id == 's'
+                    and isinstance(x.ctx, ast.Load)):
+                continue
+            if isinstance(x.slice, ast.Slice):
+                continue        # slicing never raises
+            n += 1
+            idx = x.slice
+            itxt = unparse(idx)
+            cons = '%s: s[%s]' % (q, itxt)
+            if itxt in ('p.pos', 'pos'):
+                ctx.holds('R13n', em, x, 'read at the current position', construct=cons)
+                continue
+            facts = set()
+            for t, pol in list(atomic_facts(x)) + list(short_circuit_facts(x)):
+                for a, ap in _sx._atoms(t, pol):
+                    facts.add((unparse(a), ap))
+            k = None
+            base = None
+            if isinstance(idx, ast.BinOp) and isinstance(idx.op, (ast.Add, ast.Sub)) and isinstance(idx.right, ast.Constant) \
+                    and isinstance(idx.right.value, int):
+                base, k = unparse(idx.left), (idx.right.value if isinstance(idx.op, ast.Add) else -idx.right.value)
+            if k is None:
+                ctx.unknown('R13n', em, x, 'index form not understood: s[%s]' % itxt, construct=cons)
+                continue
+            if k > 0:
+                want = [('%s < len(s)' % itxt, True), ('len(s) > %s' % itxt, True), ('%s >= len(s)' % itxt, False),
+                        ('len(s) <= %s' % itxt, False), ('%s < len(s) - %d' % (base, k), True),
+                        ('%s + %d <= len(s)' % (base, k + 1), True), ('len(s) >= %s + %d' % (base, k + 1), True),
+                        ('len(s) - %s > %d' % (base, k), True), ('len(s) - %s >= %d' % (base, k + 1), True)]
+                ok = any(w in facts for w in want)
+                ctx.decide('R13n', ok, em, x, 'look-ahead under an in-range test',
+                           '%s reads s[%s] without a test that %s < len(s) (facts here: %s): when the character at the current '
+                           'position is the last one of the input the encoder raises IndexError -- under every '
+                           'unknown-character policy, also \'fail\', which promises ValueError'
+                           % (q, itxt, itxt, sorted(t for t, p_ in facts if p_)[:4]), construct=cons)
+            else:
+                want = [('%s >= %d' % (base, -k), True), ('%s > %d' % (base, -k - 1), True), ('%s < %d' % (base, -k), False)]
+                if k == -1:
+                    want += [('%s > 0' % base, True), (base, True)]
+                ok = any(w in facts for w in want)
+                ctx.decide('R13n', ok, em, x, 'look-behind under an in-range test',
+                           '%s reads s[%s] without a test that %s >= %d: at the start of the input a negative index reads '
+                           'the *end* of the string' % (q, itxt, base, -k), construct=cons)
+    if n < 4:
+        raise AnalysisError('R13n: only %d reads of the input string found in the encoder' % n)
